@@ -151,6 +151,9 @@ static std::vector<Fn> catalogue() {
                                   V(return cat(flat((double)isprime(4294967291u)), flat(factor(4294836225u)));), V(return cat(flat((double)isprime(97)), flat(factor(97)));)});
     add("C15", "primes/nextprime", {V(return cat(flat(primes(300)), flat((double)nextprime(300)));), V(return cat(flat(primes(10)), flat((double)nextprime(70000)));),
                                     V(return cat(flat(primes(66049)), flat((double)nextprime(252)));)});
+    add("C15", "primes(n) descending / prime arguments", {V(return flat(primes(1000));), V(return flat(primes(97));), V(return flat(primes(89));), V(return cat(flat(primes(7)), flat(primes(2)));)});
+    add("C15", "nextprime / isprime after primes", {V(return cat(flat(primes(5000)), Out{(double)nextprime(97), (double)isprime(4999), (double)isprime(4997)});), V(return Out{(double)nextprime(97), (double)nextprime(90), (double)isprime(97)};),
+                                                    V(return cat(flat(factor(9699690)), flat(primes(30)));), V(return cat(flat(primes(30)), flat(factor(97 * 89)));)});
     // ------------------------------------------------------------------ C16
     add("C16", "sort/median", {V(perm(A.r1, 9, 1); return cat(cat(flat(sort(A.r1).first), flat(sort(A.r1).second)), flat(median(A.r1)));),
                                V(perm(A.r1, 9, 2); return cat(cat(flat(sort(A.r1).first), flat(sort(A.r1).second)), flat(median(A.r1)));),
@@ -173,6 +176,11 @@ static std::vector<Fn> catalogue() {
     add("C17", "shape", {V(fill(A.r1, 12, 1); return cat(cat(flat(upsample(A.r1, 3, 1)), flat(downsample(A.r1, 3, 1))), cat(flat(repelem(A.r1, 2)), flat(delayseq(A.r1, 3))));),
                          V(fill(A.r1, 12, 1); return cat(cat(flat(upsample(A.r1, 3, 2)), flat(downsample(A.r1, 4, 1))), cat(flat(repelem(A.r1, 3)), flat(delayseq(A.r1, -3))));),
                          V(return cat(cat(flat(arange(0, 7, 3)), flat(arange(5, 0, -2))), cat(flat(linspace(0, 1, 5)), flat(arange(0.0, 1.0, 0.25))));), V(return cat(flat(arange(0, 1, -2)), flat(linspace(1, 0, 4)));)});
+    // equal output length and phase, different factor (a scratch keyed by the output shape only)
+    add("C17", "upsample / repelem (same output length)", {V(fill(A.r1, 6, 1); return flat(upsample(A.r1, 2, 0));), V(fill(A.r1, 4, 1); return flat(upsample(A.r1, 3, 0));), V(fill(A.r1, 3, 1); return flat(upsample(A.r1, 4, 0));),
+                                                           V(fill(A.r1, 12, 1); return flat(upsample(A.r1, 1, 0));)});
+    add("C17", "upsample(cmplx) / downsample (same output length)", {V(fill(A.c1, 4, 1); return flat(upsample(A.c1, 3, 1));), V(fill(A.c1, 3, 1); return flat(upsample(A.c1, 4, 1));),
+                                                                     V(fill(A.r1, 24, 1); return cat(flat(downsample(A.r1, 2, 0)), flat(repelem(A.r1, 2)));), V(fill(A.r1, 36, 1); return cat(flat(downsample(A.r1, 3, 0)), flat(repelem(A.r1, 3)));)});
     add("C17", "dB/deg", {V(fill(A.r1, 9, 1); return cat(cat(flat(pow2db(abs(A.r1) + 1)), flat(db2mag(A.r1))), flat(deg2rad(A.r1)));), V(fill(A.r1, 9, 2); return cat(cat(flat(pow2db(abs(A.r1) + 1)), flat(db2mag(A.r1))), flat(deg2rad(A.r1)));)});
     // ------------------------------------------------------------------ C18
     add("C18", "finddelay/gccphat", {V(fill(A.r1, 64, 1); A.r2 = delayseq(A.r1, 5); return cat(flat((double)finddelay(A.r1, A.r2)), flat(gccphat(A.r2, A.r1, 8000).tau));),
@@ -239,6 +247,28 @@ static std::vector<Fn> catalogue() {
                                  V(fill(A.r1, 200, 2); NoiseGate g(8000, -12.0, 0.001, 0.002, 0.002); auto r = g.process(A.r1); return cat(flat(r.out), flat(r.gain));),
                                  V(fill(A.r1, 200, 1); Agc a(1.0, 60.0, 10); auto r = a.process(A.r1); return cat(flat(r.out), flat(r.gain));),
                                  V(fill(A.r1, 200, 1); Agc a(0.5, 20.0, 16); auto r = a.process(A.r1); return cat(flat(r.out), flat(r.gain));)});
+    // one parameter at a time for every stateful class: a value fixed by the FIRST object of the process (function-local static
+    // initialised from the first instance's parameters) makes a later object with other parameters wrong
+    add("C06,C20", "Limiter(T,W)", {V(fill(A.r1, 300, 1); Limiter c(8000, -3.0, 0.0, 0.0, 0.002); auto r = c.process(A.r1); return cat(flat(r.out), flat(r.gain));),
+                                    V(fill(A.r1, 300, 1); Limiter c(8000, -20.0, 0.0, 0.0, 0.002); auto r = c.process(A.r1); return cat(flat(r.out), flat(r.gain));),
+                                    V(fill(A.r1, 300, 1); Limiter c(8000, -20.0, 10.0, 0.0, 0.002); auto r = c.process(A.r1); return cat(flat(r.out), flat(r.gain));),
+                                    V(fill(A.r1, 300, 1); Limiter c(48000, -40.0, 3.0, 0.001, 0.002); auto r = c.process(A.r1); return cat(flat(r.out), flat(r.gain));)});
+    add("C06,C20", "Compressor(T,R,W)", {V(fill(A.r1, 300, 1); Compressor c(8000, -3.0, 4, 0.0, 0.0, 0.002); auto r = c.process(A.r1); return cat(flat(r.out), flat(r.gain));),
+                                         V(fill(A.r1, 300, 1); Compressor c(8000, -30.0, 4, 0.0, 0.0, 0.002); auto r = c.process(A.r1); return cat(flat(r.out), flat(r.gain));),
+                                         V(fill(A.r1, 300, 1); Compressor c(8000, -30.0, 10, 12.0, 0.0, 0.002); auto r = c.process(A.r1); return cat(flat(r.out), flat(r.gain));),
+                                         V(fill(A.r1, 300, 1); Compressor c(48000, -30.0, 4, 0.0, 0.001, 0.004); auto r = c.process(A.r1); return cat(flat(r.out), flat(r.gain));)});
+    add("C06,C20", "NoiseGate(thr,times) / Agc(target,max)", {V(fill(A.r1, 300, 1); NoiseGate g(8000, -6.0, 0.001, 0.002, 0.002); auto r = g.process(A.r1); return cat(flat(r.out), flat(r.gain));),
+                                                              V(fill(A.r1, 300, 1); NoiseGate g(8000, -30.0, 0.0, 0.004, 0.0); auto r = g.process(A.r1); return cat(flat(r.out), flat(r.gain));),
+                                                              V(fill(A.r1, 300, 1); Agc a(0.01, 20.0, 7); auto r = a.process(A.r1); return cat(flat(r.out), flat(r.gain));),
+                                                              V(fill(A.r1, 300, 1); Agc a(4.0, 60.0, 100); auto r = a.process(A.r1); return cat(flat(r.out), flat(r.gain));)});
+    add("C06,C12", "RlsFilter(lambda,delta) / LmsFilter(mu,leak)", {V(fill(A.r1, 60, 1); fill(A.r2, 60, 2); RlsFilterR f(4, 0.99, 1.0); auto r = f.process(A.r1, A.r2); return cat(cat(flat(r.y), flat(r.e)), flat(f.coeffs()));),
+                                                                    V(fill(A.r1, 60, 1); fill(A.r2, 60, 2); RlsFilterR f(4, 0.90, 1.0); auto r = f.process(A.r1, A.r2); return cat(cat(flat(r.y), flat(r.e)), flat(f.coeffs()));),
+                                                                    V(fill(A.r1, 60, 1); fill(A.r2, 60, 2); RlsFilterR f(4, 0.90, 100.0); auto r = f.process(A.r1, A.r2); return cat(cat(flat(r.y), flat(r.e)), flat(f.coeffs()));),
+                                                                    V(fill(A.r1, 60, 1); fill(A.r2, 60, 2); LmsFilterR f(4, 0.01, LmsType::LMS, 0.9); auto r = f.process(A.r1, A.r2); return cat(cat(flat(r.y), flat(r.e)), flat(f.coeffs()));)});
+    add("C06,C12", "RlsFilterC(lambda) / LmsFilterC(mu)", {V(fill(A.c1, 40, 1); fill(A.c2, 40, 2); RlsFilterC f(3, 0.99, 1.0); auto r = f.process(A.c1, A.c2); return cat(cat(flat(r.y), flat(r.e)), flat(f.coeffs()));),
+                                                           V(fill(A.c1, 40, 1); fill(A.c2, 40, 2); RlsFilterC f(3, 0.90, 1.0); auto r = f.process(A.c1, A.c2); return cat(cat(flat(r.y), flat(r.e)), flat(f.coeffs()));),
+                                                           V(fill(A.c1, 40, 1); fill(A.c2, 40, 2); LmsFilterC f(3, 0.05, LmsType::LMS, 1.0); auto r = f.process(A.c1, A.c2); return cat(cat(flat(r.y), flat(r.e)), flat(f.coeffs()));),
+                                                           V(fill(A.c1, 40, 1); fill(A.c2, 40, 2); LmsFilterC f(3, 0.5, LmsType::NLMS, 0.99); auto r = f.process(A.c1, A.c2); return cat(cat(flat(r.y), flat(r.e)), flat(f.coeffs()));)});
     add("C06", "LmsFilter/RlsFilter", {V(fill(A.r1, 60, 1); fill(A.r2, 60, 2); LmsFilterR f(4, 0.05, LmsType::LMS, 0.999); auto r = f.process(A.r1, A.r2); return cat(cat(flat(r.y), flat(r.e)), flat(f.coeffs()));),
                                        V(fill(A.r1, 60, 3); fill(A.r2, 60, 2); LmsFilterR f(4, 0.05, LmsType::LMS, 0.999); auto r = f.process(A.r1, A.r2); return cat(cat(flat(r.y), flat(r.e)), flat(f.coeffs()));),
                                        V(fill(A.r1, 60, 1); fill(A.r2, 60, 2); LmsFilterR f(4, 0.5, LmsType::NLMS, 1.0); auto r = f.process(A.r1, A.r2); return cat(cat(flat(r.y), flat(r.e)), flat(f.coeffs()));),
@@ -416,6 +446,41 @@ int main(int argc, char** argv) {
         const int nv = (int)f.var.size();
         std::string chk = "purity." + f.name;
         if (!ctx.take(chk.c_str(), P().kv("fn", f.name).kv("variants", nv))) continue;
+        // references of the second kind: each variant as the first call of a fresh PROCESS (a value fixed by the first call of the
+        // process - a function-local static initialised from the first object's parameters - is invisible to the fresh-thread
+        // references below, which are all computed in one process)
+        std::vector<Out> pfresh((size_t)nv);
+        std::vector<char> pfresh_ok((size_t)nv, 0);
+        for (int v = 0; v < nv; ++v) {
+            fb::Result r = fb::run(
+                [&] {
+                    Out o;
+                    std::thread t([&] {
+                        Arena A;
+                        o = call(f.var[(size_t)v], A);
+                    });
+                    t.join();
+                    std::string hex;
+                    char buf[20];
+                    for (double d : o) {
+                        uint64_t u;
+                        memcpy(&u, &d, 8);
+                        snprintf(buf, sizeof buf, "%016llx", (unsigned long long)u);
+                        hex += buf;
+                    }
+                    fb::emit(hex + "\n");
+                },
+                120.0);
+            if (r.kind == fb::RETURNED && !r.out.empty() && r.out.back() == '\n' && (r.out.size() - 1) % 16 == 0) {
+                const size_t n = (r.out.size() - 1) / 16;
+                pfresh[(size_t)v].resize(n);
+                for (size_t i = 0; i < n; ++i) {
+                    uint64_t u = strtoull(r.out.substr(i * 16, 16).c_str(), nullptr, 16);
+                    memcpy(&pfresh[(size_t)v][i], &u, 8);
+                }
+                pfresh_ok[(size_t)v] = 1;
+            }
+        }
         // one forked child per function: a call that does not return or corrupts memory is an observed outcome
         auto o = forked(ctx, f.name.c_str(), 120.0, [&](ChildCtx& c) {
             // references: each variant as the first call of a fresh thread (twice: must be deterministic)
@@ -435,6 +500,18 @@ int main(int argc, char** argv) {
                         c.fail(f.name.c_str(), fmt("variant %d: the first call of a fresh thread is not deterministic", v), "deterministic function");
                         return;
                     }
+                }
+            }
+            for (int v = 0; v < nv; ++v) {
+                if (!pfresh_ok[(size_t)v]) continue;   // the fresh process did not return: reported by the sequences below if it is a defect
+                ++c.evals;
+                if (!same(fresh[(size_t)v], pfresh[(size_t)v])) {
+                    size_t k = 0;
+                    const Out &a = fresh[(size_t)v], &b = pfresh[(size_t)v];
+                    while (k < a.size() && k < b.size() && biteq(a[k], b[k])) ++k;
+                    c.fail(f.name.c_str(), fmt("variant %d as the first call of a fresh thread AFTER variants 0..%d ran in other threads of this process returns %zu values, element %zu = %.17g; as the first call of a fresh process: %zu values, element %zu = %.17g",
+                                               v, v - 1, a.size(), k, k < a.size() ? a[k] : 0.0, b.size(), k, k < b.size() ? b[k] : 0.0),
+                           "bit-identical result: the result does not depend on what other objects / threads of the process did before", P().kv("aspect", "process-fresh").kv("variant", v));
                 }
             }
             for (int L = 2; L <= 3; ++L) {
